@@ -1,7 +1,9 @@
 ---- MODULE JsonParse ----
 EXTENDS Integers, Sequences, Bytes
 \* Parses a sequence of code points into the abstract value of JsonVal.tla.
-\* Result of every parser: [ok, v, p]  (p = next position). Modelled subset: no floats/exponents
+\* Result of every parser: [ok, v, p]  (p = next position). Modelled subset: integers, and decimal fractions in
+\* the canonical form of the shortest round-trip representation with at most 15 significant digits (their
+\* value IS their literal: [t |-> "float", s |-> literal]); exponents and other fractions are unspecified
 \* (reported as [ok |-> FALSE, unspec |-> TRUE]); everything else is total.
 V(t, s, n, neg, items) == [t |-> t, s |-> s, n |-> n, neg |-> neg, items |-> items]
 Fail(p) == [ok |-> FALSE, unspec |-> FALSE, v |-> V("null", <<>>, 0, FALSE, <<>>), p |-> p]
@@ -48,7 +50,18 @@ Num(s, p) ==
       q == IF neg THEN p + 1 ELSE p IN
   IF q > Len(s) \/ ~IsDigit(s[q]) THEN Fail(p)
   ELSE LET d == IF s[q] = 48 THEN [n |-> 0, p |-> q + 1, cnt |-> 1] ELSE Digits(s, q, 0, 0) IN
-       IF d.p <= Len(s) /\ s[d.p] \in {46, 101, 69} THEN Unspec(p)      \* float / exponent
+       IF d.p <= Len(s) /\ s[d.p] \in {101, 69} THEN Unspec(p)          \* exponent
+       ELSE IF d.p <= Len(s) /\ s[d.p] = 46 THEN
+         LET f == Digits(s, d.p + 1, 0, 0)
+             ip == SubSeq(s, q, d.p - 1)  fp == SubSeq(s, d.p + 1, f.p - 1)
+             lead == IF \E k \in 1..Len(fp) : fp[k] # 48 THEN (CHOOSE k \in 1..Len(fp) : fp[k] # 48 /\ \A m \in 1..(k-1) : fp[m] = 48) - 1 ELSE Len(fp) IN
+         IF f.cnt = 0 THEN Fail(p)
+         ELSE IF f.p <= Len(s) /\ s[f.p] \in {101, 69} THEN Unspec(p)
+         ELSE IF /\ Len(ip) + Len(fp) <= 15
+                 /\ (fp[Len(fp)] # 48 \/ fp = <<48>>)
+                 /\ (ip = <<48>> => (fp = <<48>> \/ lead < 4))
+              THEN Ok(V("float", SubSeq(s, p, f.p - 1), 0, FALSE, <<>>), f.p)
+              ELSE Unspec(p)
        ELSE IF d.cnt > 9 THEN Unspec(p)                                \* beyond 32-bit model range
        ELSE Ok(V("int", <<>>, d.n, neg /\ d.n # 0, <<>>), d.p)
 Lit(s, p, word, v) == IF p + Len(word) - 1 <= Len(s) /\ SubSeq(s, p, p + Len(word) - 1) = word THEN Ok(v, p + Len(word)) ELSE Fail(p)
